@@ -72,6 +72,12 @@ def checkRegsAt (c : RInstr) : Bool :=
 
 /-! ### `accept-bind`: one (original register, register found in its place after BindRegisters) pair -/
 
+/-- The stack pointer or K0 by the HARDWARE numbering carried in the id (general-purpose index 4, opmask index 0) —
+independent of which rows of the register file carry the `Restricted` flag (that the numbering is the hardware's is
+C20's subject). -/
+def isSPorK0 (id : Nat) : Bool :=
+  (idKind id == kindGP && idIndex id == 4) || (idKind id == kindOpmask && idIndex id == 0)
+
 /-- `none` = accepted; `some reason` otherwise. -/
 def checkBindOne (tbl : List RegRow) (al : List (Nat × Nat)) (o b : R) : Option String :=
   if idIsVirtual b.id then some s!"virtual-remains {b.id}"
@@ -87,6 +93,7 @@ def checkBindOne (tbl : List RegRow) (al : List (Nat × Nat)) (o b : R) : Option
         | some row =>
           if row.id != p then some s!"not-a-register-of-the-file {o.id}"
           else if row.info &&& infoRestricted != 0 then some s!"restricted {o.id}"
+          else if isSPorK0 p then some s!"stack-pointer-or-k0 {o.id}"
           else if o.mask == S8H && idIndex p ≥ 4 then some s!"high-byte-on-bad-register {o.id}"
           else none
 
